@@ -22,10 +22,10 @@ git diff > /tmp/adopt-$PROP-$X.diff
 ran=()
 if go build ./... 2>/dev/null && go test -vet=off -count=1 -timeout 25m ./... > /tmp/adopt-$PROP-$X.suite 2>&1; then suite=pass; else suite=fail; fi
 ran+=("suite with change: $suite")
-demo_dir=$(python3 -c "import json;print(json.load(open('$SRC/meta.json')).get('demo_dir','').strip('/'))")
+demo_dir=$(python3 -c "import json;d=json.load(open('$SRC/meta.json')).get('demo_dir','') or '';d=d.split()[0] if d.split() else '';print(d.strip('/'))")
 [ -z "$demo_dir" ] && demo_dir=.
 [ "$demo_dir" = "repo root" ] && demo_dir=.
-demo_dir=${demo_dir#./}; [ -d "$WT/$demo_dir" ] || demo_dir=.
+demo_dir=${demo_dir#./}; case "$demo_dir" in *" "*|"") demo_dir=. ;; esac; mkdir -p "$WT/$demo_dir"
 cp $SRC/demo_test.go $WT/$demo_dir/zz_seeded_demo_test.go
 if (cd $WT/$demo_dir && go test -vet=off -count=1 -timeout 10m -run 'C[0-9][0-9]' . > /tmp/adopt-$PROP-$X.demo1 2>&1); then with=pass; else with=fail; fi
 ran+=("demo with change: $with")
